@@ -251,26 +251,34 @@ def finishSeq (k : SeqKind) (vid : Nat) (y : PyVal) (r : LoopR) : Out :=
       | .set => .invalid (.mk .set y vid (r.es.map Prod.snd))
       | _ => .invalid (.mk (.index (r.es.map Prod.fst)) y vid (r.es.map Prod.snd))
 
-def seqStep (k : SeqKind) (o : Oracle) (m : Mode) (vid : Nat) (preds apreds : List Pred)
-    (c : Option CoerceK) (ev : Ev1) (x : PyVal) : Res :=
-  if m = .sync ∧ apreds ≠ [] then some (.raised .assertion, [])
+/-- everything `seqStep` does before looking at an element: guard, gate, container predicates.
+    `inl` = the result is already decided (no element is validated); `inr (y, xs, t)` = go on with
+    the coerced container `y`, its elements `xs`, trace so far `t`. -/
+def seqPre (k : SeqKind) (o : Oracle) (m : Mode) (vid : Nat) (preds apreds : List Pred)
+    (c : Option CoerceK) (x : PyVal) : (Out × List Ev) ⊕ (PyVal × List PyVal × List Ev) :=
+  if m = .sync ∧ apreds ≠ [] then .inl (.raised .assertion, [])
   else
     match gate o k.gateTy k.destTy c x with
-    | .exn e t => some (.raised e, t)
-    | .rej ek t => some (.invalid (.mk ek x vid []), t)
+    | .exn e t => .inl (.raised e, t)
+    | .rej ek t => .inl (.invalid (.mk ek x vid []), t)
     | .acc y t =>
-      let p := contPreds m preds apreds y
-      match p.2.2 with
-      | some e => some (.raised e, t ++ p.2.1)
-      | none =>
-        if !p.1.isEmpty then some (.invalid (.mk (.preds p.1) y vid []), t ++ p.2.1)
+      match contPreds m preds apreds y with
+      | (_, t2, some e) => .inl (.raised e, t ++ t2)
+      | (f, t2, none) =>
+        if !f.isEmpty then .inl (.invalid (.mk (.preds f) y vid []), t ++ t2)
         else
           match pyIter y with
-          | none => some (.raised .typeError, t ++ p.2.1)
-          | some xs =>
-            match loopItems ev (k == .set) xs 0 true with
-            | none => none
-            | some r => some (finishSeq k vid y r, t ++ p.2.1 ++ r.t)
+          | none => .inl (.raised .typeError, t ++ t2)
+          | some xs => .inr (y, xs, t ++ t2)
+
+def seqStep (k : SeqKind) (o : Oracle) (m : Mode) (vid : Nat) (preds apreds : List Pred)
+    (c : Option CoerceK) (ev : Ev1) (x : PyVal) : Res :=
+  match seqPre k o m vid preds apreds c x with
+  | .inl r => some r
+  | .inr (y, xs, t) =>
+    match loopItems ev (k == .set) xs 0 true with
+    | none => none
+    | some r => some (finishSeq k vid y r, t ++ r.t)
 
 /-! ### n-tuples -/
 
@@ -298,31 +306,40 @@ def runObjCheck (oc : Option ObjCheck) (vid : Nat) (obj : PyVal) : Out × List E
     | none => (.valid obj, [.oc c.id])
     | some e => (.invalid (.mk (.custom e) obj vid []), [.oc c.id])
 
-def ntupleStep (o : Oracle) (vid : Nat) (oc : Option ObjCheck) (c : Option CoerceK)
-    (lenPid : Nat) (evs : List Ev1) (x : PyVal) : Res :=
+def ntuplePre (o : Oracle) (vid : Nat) (c : Option CoerceK) (lenPid : Nat) (arity : Nat) (x : PyVal) :
+    (Out × List Ev) ⊕ (PyVal × List PyVal × List Ev) :=
   match gate o .tuple .list c x with
-  | .exn e t => some (.raised e, t)
-  | .rej ek t => some (.invalid (.mk ek x vid []), t)
+  | .exn e t => .inl (.raised e, t)
+  | .rej ek t => .inl (.invalid (.mk ek x vid []), t)
   | .acc y t =>
     match pyLen y with
-    | none => some (.raised .typeError, t)
+    | none => .inl (.raised .typeError, t)
     | some n =>
-      if n ≠ evs.length then some (.invalid (.mk (.preds [lenPid]) y vid []), t)
+      if n ≠ arity then .inl (.invalid (.mk (.preds [lenPid]) y vid []), t)
       else
         match pyIter y with
-        | none => some (.raised .typeError, t)
-        | some xs =>
-          match loopFields evs xs 0 with
-          | none => none
-          | some r =>
-            match r.r with
-            | some e => some (.raised e, t ++ r.t)
-            | none =>
-              if !r.es.isEmpty then
-                some (.invalid (.mk (.index (r.es.map Prod.fst)) y vid (r.es.map Prod.snd)), t ++ r.t)
-              else
-                let oc' := runObjCheck oc vid (.tuple 0 r.ws)
-                some (oc'.1, t ++ r.t ++ oc'.2)
+        | none => .inl (.raised .typeError, t)
+        | some xs => .inr (y, xs, t)
+
+def ntupleFinish (vid : Nat) (oc : Option ObjCheck) (y : PyVal) (t : List Ev) (r : LoopR) :
+    Out × List Ev :=
+  match r.r with
+  | some e => (.raised e, t ++ r.t)
+  | none =>
+    if !r.es.isEmpty then
+      (.invalid (.mk (.index (r.es.map Prod.fst)) y vid (r.es.map Prod.snd)), t ++ r.t)
+    else
+      let oc' := runObjCheck oc vid (.tuple 0 r.ws)
+      (oc'.1, t ++ r.t ++ oc'.2)
+
+def ntupleStep (o : Oracle) (vid : Nat) (oc : Option ObjCheck) (c : Option CoerceK)
+    (lenPid : Nat) (evs : List Ev1) (x : PyVal) : Res :=
+  match ntuplePre o vid c lenPid evs.length x with
+  | .inl r => some r
+  | .inr (y, xs, t) =>
+    match loopFields evs xs 0 with
+    | none => none
+    | some r => some (ntupleFinish vid oc y t r)
 
 /-! ### maps -/
 
@@ -368,31 +385,38 @@ def dictItems : PyVal → Option (List (PyVal × PyVal))
   | .sub _ v => dictItems v
   | _ => none
 
-def mapStep (o : Oracle) (m : Mode) (vid : Nat) (preds apreds : List Pred) (c : Option CoerceK)
-    (evk evv : Ev1) (x : PyVal) : Res :=
-  if m = .sync ∧ apreds ≠ [] then some (.raised .assertion, [])
+def mapPre (o : Oracle) (m : Mode) (vid : Nat) (preds apreds : List Pred) (c : Option CoerceK)
+    (x : PyVal) : (Out × List Ev) ⊕ (PyVal × List (PyVal × PyVal) × List Ev) :=
+  if m = .sync ∧ apreds ≠ [] then .inl (.raised .assertion, [])
   else
     match gate o .dict .dict c x with
-    | .exn e t => some (.raised e, t)
-    | .rej ek t => some (.invalid (.mk ek x vid []), t)
+    | .exn e t => .inl (.raised e, t)
+    | .rej ek t => .inl (.invalid (.mk ek x vid []), t)
     | .acc y t =>
-      let p := contPreds m preds apreds y
-      match p.2.2 with
-      | some e => some (.raised e, t ++ p.2.1)
-      | none =>
-        if !p.1.isEmpty then some (.invalid (.mk (.preds p.1) y vid []), t ++ p.2.1)
+      match contPreds m preds apreds y with
+      | (_, t2, some e) => .inl (.raised e, t ++ t2)
+      | (f, t2, none) =>
+        if !f.isEmpty then .inl (.invalid (.mk (.preds f) y vid []), t ++ t2)
         else
           match dictItems y with
-          | none => some (.raised .attributeError, t ++ p.2.1)
-          | some kvs =>
-            match mapLoop evk evv kvs [] with
-            | none => none
-            | some r =>
-              match r.r with
-              | some e => some (.raised e, t ++ p.2.1 ++ r.t)
-              | none =>
-                if r.ks.isEmpty then some (.valid (.dict 0 r.out), t ++ p.2.1 ++ r.t)
-                else some (.invalid (.mk (.map r.ks r.shape) y vid r.errs), t ++ p.2.1 ++ r.t)
+          | none => .inl (.raised .attributeError, t ++ t2)
+          | some kvs => .inr (y, kvs, t ++ t2)
+
+def mapFinish (vid : Nat) (y : PyVal) (t : List Ev) (r : MapR) : Out × List Ev :=
+  match r.r with
+  | some e => (.raised e, t ++ r.t)
+  | none =>
+    if r.ks.isEmpty then (.valid (.dict 0 r.out), t ++ r.t)
+    else (.invalid (.mk (.map r.ks r.shape) y vid r.errs), t ++ r.t)
+
+def mapStep (o : Oracle) (m : Mode) (vid : Nat) (preds apreds : List Pred) (c : Option CoerceK)
+    (evk evv : Ev1) (x : PyVal) : Res :=
+  match mapPre o m vid preds apreds c x with
+  | .inl r => some r
+  | .inr (y, kvs, t) =>
+    match mapLoop evk evv kvs [] with
+    | none => none
+    | some r => some (mapFinish vid y t r)
 
 /-! ### record-shaped validators -/
 
@@ -478,43 +502,55 @@ def recBuild (cfg : RecCfg) (got : List (Option PyVal)) : PyVal :=
   | _ =>
     construct cfg ((cfg.keys.zip got).filterMap (fun kg => kg.2.map (fun w => (kg.1, w))))
 
-def recordStep (o : Oracle) (m : Mode) (vid : Nat) (cfg : RecCfg) (evs : List Ev1) (x : PyVal) :
-    Res :=
-  if m = .sync ∧ cfg.aoc.isSome then some (.raised .assertion, [])
+/-- guard, gate and unknown-key scan: everything before a declared key's value is validated -/
+def recPre (o : Oracle) (m : Mode) (vid : Nat) (cfg : RecCfg) (x : PyVal) :
+    (Out × List Ev) ⊕ (PyVal × List (PyVal × PyVal) × List Ev) :=
+  if m = .sync ∧ cfg.aoc.isSome then .inl (.raised .assertion, [])
   else
     match recGate o cfg x with
-    | .exn e t => some (.raised e, t)
-    | .rej ek t => some (.invalid (.mk ek x vid []), t)
+    | .exn e t => .inl (.raised e, t)
+    | .rej ek t => .inl (.invalid (.mk ek x vid []), t)
     | .acc y t =>
       match dictItems y with
-      | none => some (.raised .typeError, t)
+      | none => .inl (.raised .typeError, t)
       | some data =>
         if cfg.failUnknown && hasUnknownKey cfg.keys data then
-          some (.invalid (.mk (.extraKeys cfg.keys) y vid []), t)
-        else
-          match recLoop vid y data evs cfg.keys cfg.reqs with
-          | none => none
-          | some r =>
-            match r.r with
-            | some e => some (.raised e, t ++ r.t)
-            | none =>
-              if !r.ks.isEmpty then some (.invalid (.mk (.keys r.ks) y vid r.errs), t ++ r.t)
-              else
-                let obj := recBuild cfg r.got
-                let ti := if cfg.kind = .record then [Ev.into cfg.intoId] else []
-                let oc' := runObjCheck cfg.oc vid obj
-                match oc'.1 with
-                | .valid _ =>
-                  if m = .async then
-                    match cfg.aoc with
-                    | none => some (.valid obj, t ++ r.t ++ ti ++ oc'.2)
-                    | some a =>
-                      match a.f obj with
-                      | none => some (.valid obj, t ++ r.t ++ ti ++ oc'.2 ++ [.aoc a.id])
-                      | some e => some (.invalid (.mk (.custom e) obj vid []),
-                                        t ++ r.t ++ ti ++ oc'.2 ++ [.aoc a.id])
-                  else some (.valid obj, t ++ r.t ++ ti ++ oc'.2)
-                | other => some (other, t ++ r.t ++ ti ++ oc'.2)
+          .inl (.invalid (.mk (.extraKeys cfg.keys) y vid []), t)
+        else .inr (y, data, t)
+
+/-- async whole-object check (async mode only) -/
+def runAObjCheck (m : Mode) (aoc : Option ObjCheck) (vid : Nat) (obj : PyVal) : Out × List Ev :=
+  match m, aoc with
+  | .async, some a =>
+    match a.f obj with
+    | none => (.valid obj, [.aoc a.id])
+    | some e => (.invalid (.mk (.custom e) obj vid []), [.aoc a.id])
+  | _, _ => (.valid obj, [])
+
+def recFinish (m : Mode) (vid : Nat) (cfg : RecCfg) (y : PyVal) (t : List Ev) (r : RecR) :
+    Out × List Ev :=
+  match r.r with
+  | some e => (.raised e, t ++ r.t)
+  | none =>
+    if !r.ks.isEmpty then (.invalid (.mk (.keys r.ks) y vid r.errs), t ++ r.t)
+    else
+      let obj := recBuild cfg r.got
+      let ti := if cfg.kind = .record then [Ev.into cfg.intoId] else []
+      let oc' := runObjCheck cfg.oc vid obj
+      match oc'.1 with
+      | .valid _ =>
+        let a := runAObjCheck m cfg.aoc vid obj
+        (a.1, t ++ r.t ++ ti ++ oc'.2 ++ a.2)
+      | other => (other, t ++ r.t ++ ti ++ oc'.2)
+
+def recordStep (o : Oracle) (m : Mode) (vid : Nat) (cfg : RecCfg) (evs : List Ev1) (x : PyVal) :
+    Res :=
+  match recPre o m vid cfg x with
+  | .inl r => some r
+  | .inr (y, data, t) =>
+    match recLoop vid y data evs cfg.keys cfg.reqs with
+    | none => none
+    | some r => some (recFinish m vid cfg y t r)
 
 /-! ### unions and wrappers -/
 
